@@ -84,7 +84,7 @@ def gen_script(rng, tier):
     if rng.random() < (E2E_SHARE if tier == 'quick' else E2E_SHARE / 5):
         # the assembled Thrift / ThriftMux clients (component e2e9, monitor Adapter/E2E.lean): closed, then left alone
         import e2e
-        return dict(e2e.gen_script(rng, tier, 'close'), kind='e2e')
+        return dict(e2e.gen_script(rng, tier, rng.choice(['close', 'close', 'resume'])), kind='e2e')
     if rng.random() < MUX_SHARE:
         import c09mux
         return c09mux.gen_script(rng, tier)
